@@ -11,6 +11,8 @@ CLAIMED = {
              note='Trusted: CBMC/Kani, fmt::format stub, std str length specs. Not covered: derive/src/validators.rs code generation (list mode), multiple_of with float operands, regex.'),
  'C10': dict(engine='verus', tech=TECH_V, text='Kernel contracts only: the recursion-depth walker of check_recursive_depth is proved (unbounded, incl. termination on cyclic fragments and overflow freedom) to reject exactly the documents whose selection nesting, with fragments inlined, exceeds the limit.',
              note='Trusted: HashMap lookup shim, ServerError shim, AST types extracted verbatim. Not covered yet: depth/complexity visitors, check_rules limit comparison, the visitor driver, generated compute_complexity.'),
+ 'C12': dict(engine='verus', tech=TECH_V + '; bounded replay enumeration stand-in for the parser builders (labelled bounded, never counted)', text='Kernel contracts only: Upload::parse is proved panic-free for every Option<Value>; the recursion-depth walker (shared unit with C10) is proved overflow-free and terminating on every document incl. cyclic fragments. The parser builders are only exercised by a bounded enumeration (no panic; nesting beyond the limit rejected).',
+             note='Trusted: str::strip_prefix / str::parse specs. Not covered: stack depth of the pest-generated parser, serde/multer/tungstenite decoders, progress (hang), Upload::value indexing (needs Context).'),
  'C14': dict(engine='verus', tech=TECH_V, text='Kernel contract only: PositionCalculator::step is proved (unbounded loop invariant) to advance (line, column) exactly as the property\'s line-terminator semantics prescribe for the consumed text; composition over any number of steps by lemma.',
              note='Trusted: pest span offsets on char boundaries, str byte slicing spec, pairs stepped in document order. Not covered: that every AST node takes its pos from step on the right pair; pest\'s own error positions.'),
  'C15': dict(engine='verus', tech=TECH_V, text='Kernel contract only: write_quoted prints a quoted string whose body decodes (crate string grammar semantics) to exactly the value, for all strings.',
